@@ -438,9 +438,10 @@ func c04RunCells(c *lib.Ctx, lines []string) []string {
 	// of a fresh worker, with 120 s before it counts as a timeout — the coverage does not depend
 	// on the load of the machine
 	retried := map[int]bool{}
+	idleRetries := 0 // a worker that stalls between two cells (start-up on a loaded machine) is started again
 	for start < len(lines) {
 		deadline := 20 * time.Second
-		if retried[start] {
+		if retried[start] || idleRetries > 0 {
 			deadline = 120 * time.Second
 		}
 		pr, pw, err := os.Pipe()
@@ -517,11 +518,17 @@ func c04RunCells(c *lib.Ctx, lines []string) []string {
 				res[start] = "skipped"
 				start++
 			}
+		} else if why == "timeout" && idleRetries < 3 {
+			// stalled before the next cell began (process start-up, not a cell): once more from the same
+			// cell with the long deadline; no cell loses its judgement to the load of the machine
+			idleRetries++
+			continue
 		} else if start < len(lines) {
 			// died between cells: skip one to guarantee progress
 			res[start] = why
 			start++
 		}
+		idleRetries = 0
 	}
 	_ = os.RemoveAll(dir)
 	return res
